@@ -173,7 +173,13 @@ def one(ctx, rng, xr, ws, fmt, d):
             path = os.path.join(d, "out.spec" + (".gz" if gz else ""))
             opts = {"ntime": None if rng.random() < 0.5 else int(rng.integers(1, nt + 1))}
             ro = {"dirorder": False} if rng.random() < 0.25 else {}         # documented reader option: directions as in the file
-            again = lambda: (ds.spec.to_swan(path, **opts), ws.read_swan(path, **ro))[1]
+            wds, wkw = ds, dict(opts)
+            if not grid and rng.random() < 0.15:
+                # positions handed to the writer as arguments (documented for datasets that carry no lon / lat variables)
+                wds = ds.drop_vars(["lon", "lat"])
+                wkw.update(lons=np.array(ds["lon"].values), lats=np.array(ds["lat"].values))
+                rec.note("swan_positions_given_as_arguments")
+            again = lambda: (wds.spec.to_swan(path, **wkw), ws.read_swan(path, **ro))[1]
             back = again()
             if ro:
                 rec.note("swan_read_with_dirorder_false")
